@@ -499,6 +499,15 @@ def run_registry(prop, tier, seed):
                 seen_keys.add(k)
                 v.violations.append({"prop": "C15", "key": k, "detail": dd, "path": [k]})
         v.extra["registry_walk"] = {"objects": walk["objects"], "roundtrips": walk["n"], "violating": len(walk["bad"])}
+        from core import run_isolated
+        inc = run_isolated(_incremental_json, seed)
+        v.impl += 2 * inc["n"]
+        v.evaluations += 2 * inc["n"]
+        for k, dd in inc["bad"]:
+            if k not in seen_keys:
+                seen_keys.add(k)
+                v.violations.append({"prop": "C15", "key": k, "detail": dd, "path": [k]})
+        v.extra["incremental_imports"] = {"quantities": inc["n"], "violating": len(inc["bad"])}
     if prop == "C15":
         v.rule = ("cases = transitions of the TLC state graph of MC_Registry with Dump/Load/LoadForeign actions (units and "
                   "quantities of int/float/Decimal magnitude; pickle, copy, deepcopy, JSON), one real execution each; "
@@ -567,6 +576,67 @@ def _registry_walk(seed):
                         out["bad"].append(["walk:quantity-json:not-equal", "%r -> %r" % (q, back)])
     if (len(Dimension._known), len(Prefix._known)) != sizes[:2]:
         out["bad"].append(["walk:tables-grew", "dimension/prefix tables grew during round trips"])
+    return out
+
+
+def _incremental_json(seed):
+    """C15 over time: one process imports the unit modules stage by stage; after each stage every prefix x named unit is
+    (a) spelled as a string unit, Quantity(3, str(unit)), and (b) sent through the JSON codec as a quantity.  What a unit
+    text meant BEFORE a later module declared the same symbol must not leak into how it is decoded afterwards."""
+    import importlib
+    import sys
+    from core import REPO
+    sys.path.insert(0, os.path.join(REPO, "src"))
+    import measured as m
+    from measured import Prefix, Quantity, Unit
+    from measured.json import MeasuredJSONDecoder, MeasuredJSONEncoder
+    from text import STAGES
+    out = {"n": 0, "bad": []}
+    for si, stage in enumerate(STAGES, start=1):
+        for mod in stage:
+            importlib.import_module("measured." + mod)
+        prefixes = [p for _, p in sorted(Prefix._by_symbol.items())]
+        units = []
+        for _, u in sorted(Unit._by_symbol.items(), key=lambda kv: kv[0]):
+            if u not in units and u.symbol:
+                units.append(u)
+        for u in units:
+            for p in [None] + prefixes:
+                unit = u if p is None else p * u
+                tag = "%s+%s" % (p.symbol if p else "", u.symbol)
+                q = Quantity(3, unit)
+                out["n"] += 1
+                text = str(unit)
+                # what the text means NOW, by the parser itself (whether str() is parseable / unambiguous is C13's subject)
+                try:
+                    now = Unit.parse(text)
+                except Exception:
+                    now = None
+                for what, f in (("string-unit", lambda: Quantity(3, text)),
+                                ("json", lambda: json.loads(json.dumps(q, cls=MeasuredJSONEncoder), cls=MeasuredJSONDecoder))):
+                    try:
+                        back = f()
+                    except Exception as ex:
+                        if now is None:
+                            cause = "folded-magnitude" if " " in text else "unregistered-prefix"
+                            key = ("json-quantity:unit-text-with-folded-magnitude:OTHER:%s" % type(ex).__name__) if cause == "folded-magnitude" else \
+                                  ("json-quantity:unit-text-with-unregistered-prefix:OTHER:%s" % type(ex).__name__)
+                            out["bad"].append([key, "%s of %r (text %r)" % (what, q, text)])
+                        else:
+                            out["bad"].append(["incremental-%s:raised:%s:%s" % (what, type(ex).__name__, tag), "stage %d: %s of %r although Unit.parse(%r) works" % (si, what, q, text)])
+                        continue
+                    try:
+                        equal = back.unit is unit or (back == q and q == back)
+                    except Exception:
+                        equal = False
+                    if equal:
+                        continue
+                    if now is not None and back.unit is now:
+                        # the text itself reads as another unit (a prefix+symbol collision): the C13 finding seen through the codec
+                        out["bad"].append(["json-quantity:unit-text-reads-as-another-unit:%s" % tag, "%s of %r gave %r (str() is %r)" % (what, q, back, text)])
+                    else:
+                        out["bad"].append(["incremental-%s:not-what-the-text-means-now:%s" % (what, tag),
+                                           "after importing stage %d (%s): %s of %r gave %r, Unit.parse(%r) is %r" % (si, "+".join(stage), what, q, back, text, now)])
     return out
 
 
